@@ -1084,7 +1084,7 @@ ByteString DBObject::getByteStringValue(CK_ATTRIBUTE_TYPE type)
 	}
 }
 
-CK_ATTRIBUTE_TYPE DBObject::nextAttributeType(CK_ATTRIBUTE_TYPE)
+CK_ATTRIBUTE_TYPE DBObject::nextAttributeType(CK_ATTRIBUTE_TYPE type)
 {
 	MutexLocker lock(_mutex);
 
@@ -1099,8 +1099,34 @@ CK_ATTRIBUTE_TYPE DBObject::nextAttributeType(CK_ATTRIBUTE_TYPE)
 		return false;
 	}
 
-	// FIXME: implement for C_CopyObject
-	return CKA_CLASS;
+	// The smallest attribute type above the given one over all attribute
+	// tables; CKA_CLASS (= 0) when there is none (used by C_CopyObject)
+	static const char* const tables[] =
+	{
+		"attribute_boolean", "attribute_integer", "attribute_binary",
+		"attribute_array", "attribute_text", "attribute_datetime", "attribute_real"
+	};
+	bool found = false;
+	CK_ATTRIBUTE_TYPE next = CKA_CLASS;
+	for (size_t i = 0; i < sizeof(tables) / sizeof(tables[0]); i++)
+	{
+		DB::Statement statement = _connection->prepare(
+			"select min(type) from %s where object_id=%lld and type>%lu",
+			tables[i],
+			_objectId,
+			type);
+		if (!statement.isValid()) continue;
+		DB::Result result = _connection->perform(statement);
+		if (!result.isValid() || result.fieldIsNull(1)) continue;
+		CK_ATTRIBUTE_TYPE candidate = result.getULongLong(1);
+		if (!found || candidate < next)
+		{
+			found = true;
+			next = candidate;
+		}
+	}
+
+	return found ? next : CKA_CLASS;
 }
 
 // Set the specified attribute
